@@ -500,7 +500,7 @@ type minInst struct {
 	recInitErr bool
 	recErrAt   int
 	statusAt   int // Problem.Status returns something at this call (1-based; 0 = Status not set / never)
-	statusKind int // 1: terminal status, 2: error
+	statusKind int // 1: terminal status, 2: error, 3: a status registered with NewStatus
 	hasStatus  bool
 	initVals   int
 	convKind   int
@@ -596,13 +596,18 @@ func drawMinimize(t *simrt.Tape) *minInst {
 	if usesLS(in.method) {
 		in.ls = t.Choose(simrt.KWorkload, 4)
 		if in.ls != 0 {
-			in.lsKnob = t.Choose(simrt.KWorkload, 3)
+			in.lsKnob = t.Choose(simrt.KWorkload, 4)
 		}
 		if in.method <= mCGHZ {
 			in.stepKnob = t.Choose(simrt.KWorkload, 6)
 		}
 	}
 	defaults := usesLS(in.method) && t.Choose(simrt.KWorkload, 8) == 7
+	if defaults && in.lsKnob == 3 {
+		// a bounded step interval may legitimately end a run far from the
+		// minimizer; the reach-the-minimizer oracle is for unbounded searches
+		in.lsKnob = 0
+	}
 	in.obj = drawObjective(t, in.dim, defaults)
 	if in.method == mNewton && in.obj.hess == nil {
 		in.method = mBFGS
@@ -673,7 +678,7 @@ func drawMinimize(t *simrt.Tape) *minInst {
 			in.hasStatus = true
 			if t.Choose(simrt.KFault, 2) == 1 {
 				in.statusAt = small(15)
-				in.statusKind = 1 + t.Choose(simrt.KFault, 2)
+				in.statusKind = 1 + t.Choose(simrt.KFault, 3)
 			}
 		}
 	case 1:
@@ -711,7 +716,7 @@ func drawMinimize(t *simrt.Tape) *minInst {
 	}
 	in.fcAbs = []float64{1e-2, 1e-3, 0.5, 0}[t.Choose(simrt.KWorkload, 4)]
 	in.fcRel = []float64{0, 1e-3, 0.05}[t.Choose(simrt.KWorkload, 3)]
-	in.fcIter = []int{2, 1, 3, 5}[t.Choose(simrt.KWorkload, 4)]
+	in.fcIter = []int{2, 1, 3, 5, 0}[t.Choose(simrt.KWorkload, 5)] // 0: "it has no effect"
 	switch in.convKind {
 	case 1:
 		s.Converger = optimize.NeverTerminate{}
@@ -832,11 +837,14 @@ func (in *minInst) build() *minRun {
 	var ls optimize.Linesearcher
 	switch in.ls {
 	case 1:
-		ls = &optimize.Backtracking{DecreaseFactor: []float64{0, 0.8, 0.3}[in.lsKnob], ContractionFactor: []float64{0, 0, 0.1}[in.lsKnob]}
+		ls = &optimize.Backtracking{DecreaseFactor: []float64{0, 0.8, 0.3, 0}[in.lsKnob], ContractionFactor: []float64{0, 0, 0.1, 0.9}[in.lsKnob]}
 	case 2:
-		ls = &optimize.Bisection{CurvatureFactor: []float64{0, 0.1, 0.5}[in.lsKnob]}
+		ls = &optimize.Bisection{CurvatureFactor: []float64{0, 0.1, 0.5, 0.99}[in.lsKnob]}
 	case 3:
-		ls = &optimize.MoreThuente{DecreaseFactor: []float64{0, 0.3, 0.05}[in.lsKnob], CurvatureFactor: []float64{0, 0.5, 0.1}[in.lsKnob]}
+		// (knob 3: a bounded step interval; a search that ends at a bound
+		// fails with ErrLinesearcherBound / ErrLinesearcherFailure, as documented)
+		ls = &optimize.MoreThuente{DecreaseFactor: []float64{0, 0.3, 0.05, 0}[in.lsKnob], CurvatureFactor: []float64{0, 0.5, 0.1, 0}[in.lsKnob],
+			MinimumStep: []float64{0, 0, 0, 1.0 / 256}[in.lsKnob], MaximumStep: []float64{0, 0, 0, 0.75}[in.lsKnob]}
 	}
 	// tuning knobs: correctness must not depend on one configuration
 	gst := []float64{0, 1e-4, 0, math.NaN()}[in.knob]
@@ -861,11 +869,15 @@ func (in *minInst) build() *minRun {
 	case mCGPRP:
 		r.method = &optimize.CG{Linesearcher: ls, InitialStep: ss, Variant: &optimize.PolakRibierePolyak{}, GradStopThreshold: gst, IterationRestartFactor: float64(2 * (in.knob / 2))}
 	case mCGHS:
-		r.method = &optimize.CG{Linesearcher: ls, InitialStep: ss, Variant: &optimize.HestenesStiefel{}, GradStopThreshold: gst}
+		var variant optimize.CGVariant = &optimize.HestenesStiefel{}
+		if in.knob == 2 {
+			variant = nil // "If Variant is nil, an appropriate default is chosen"
+		}
+		r.method = &optimize.CG{Linesearcher: ls, InitialStep: ss, Variant: variant, GradStopThreshold: gst}
 	case mCGDY:
-		r.method = &optimize.CG{Linesearcher: ls, InitialStep: ss, Variant: &optimize.DaiYuan{}, GradStopThreshold: gst}
+		r.method = &optimize.CG{Linesearcher: ls, InitialStep: ss, Variant: &optimize.DaiYuan{}, GradStopThreshold: gst, AngleRestartThreshold: []float64{0, -0.5, -1, 0}[in.knob]}
 	case mCGHZ:
-		r.method = &optimize.CG{Linesearcher: ls, InitialStep: ss, Variant: &optimize.HagerZhang{}, GradStopThreshold: gst}
+		r.method = &optimize.CG{Linesearcher: ls, InitialStep: ss, Variant: &optimize.HagerZhang{}, GradStopThreshold: gst, AngleRestartThreshold: []float64{0, -0.5, -1, 0}[in.knob]}
 	case mBFGS:
 		r.method = &optimize.BFGS{Linesearcher: ls, GradStopThreshold: gst}
 	case mLBFGS:
@@ -889,7 +901,18 @@ func (in *minInst) build() *minRun {
 		}
 		r.method = nm
 	case mCmaEs:
-		r.method = &optimize.CmaEsChol{Population: in.pop, ForgetBest: in.forgetBest, StopLogDet: []float64{math.NaN(), 0, math.Inf(1)}[in.cmaStop], Src: rand.NewPCG(in.seed, 77), InitStepSize: []float64{0, 0.5, 2, 0}[in.knob]}
+		cma := &optimize.CmaEsChol{Population: in.pop, ForgetBest: in.forgetBest, StopLogDet: []float64{math.NaN(), 0, math.Inf(1)}[in.cmaStop], Src: rand.NewPCG(in.seed, 77), InitStepSize: []float64{0, 0.5, 2, 0}[in.knob]}
+		if in.knob == 3 {
+			// a supplied initial covariance: diag(4, 1, 1/4, ...)
+			cov := mat.NewSymDense(in.dim, nil)
+			for i := 0; i < in.dim; i++ {
+				cov.SetSym(i, i, math.Ldexp(4, -2*i))
+			}
+			var ch mat.Cholesky
+			ch.Factorize(cov)
+			cma.InitCholesky = &ch
+		}
+		r.method = cma
 		r.pop = in.pop
 		if r.pop == 0 {
 			r.pop = 4 + int(3*math.Log(float64(in.dim)))
@@ -992,8 +1015,11 @@ func (in *minInst) build() *minRun {
 		r.prob.Status = func() (optimize.Status, error) {
 			k := log.incStatus()
 			if at > 0 && k >= at {
-				if kind == 1 {
+				switch kind {
+				case 1:
 					return optimize.Success, nil
+				case 3:
+					return harnessStatus, nil
 				}
 				return optimize.Failure, errInjected
 			}
@@ -1220,7 +1246,7 @@ func runMinimize(t *simrt.Tape, rc *RunCtx) *Violation {
 		rc.fault("callback.printer_writer_error", 1)
 	}
 	if in.hasStatus && in.statusAt > 0 && log.nStatus >= in.statusAt {
-		if in.statusKind == 1 {
+		if in.statusKind == 1 || in.statusKind == 3 {
 			rc.fault("callback.problem_status_terminal", 1)
 		} else {
 			rc.fault("callback.problem_status_error", 1)
@@ -1585,6 +1611,14 @@ func checkC19(rc *RunCtx, in *minInst, r *minRun, nTasks int) *Violation {
 		if err == nil {
 			return bad("no error was returned")
 		}
+	case harnessStatus:
+		if !(in.hasStatus && in.statusKind == 3 && log.nStatus >= in.statusAt && in.statusAt > 0) {
+			return bad("Problem.Status never returned it")
+		}
+		if res.Status.String() != "HarnessStop" || !res.Status.Early() || res.Status.Err() != nil {
+			return bad(fmt.Sprintf("a status registered as NewStatus(\"HarnessStop\", true, nil) reads back as %q, Early %v, Err %v", res.Status.String(), res.Status.Early(), res.Status.Err()))
+		}
+		rc.probe("status_callback_terminated_run", 1)
 	}
 	if err != nil {
 		rc.oracle("error-origin")
@@ -1663,7 +1697,7 @@ func checkC19(rc *RunCtx, in *minInst, r *minRun, nTasks int) *Violation {
 				continue
 			}
 			count++
-			if count >= iters {
+			if iters > 0 && count >= iters {
 				at = i
 				break
 			}
@@ -1812,6 +1846,10 @@ var stepSizerNames = []string{"nil (the method's default)", "ConstantStepSize{0.
 // MaxStepSize]; FirstOrderStepSize chooses s_k with s_k g_k.p_k = s_{k-1}
 // g_{k-1}.p_{k-1} inside those bounds. For CG only the first line search has a
 // known direction.
+// harnessStatus is a user-defined Status ("NewStatus returns a unique Status
+// variable"), returned by Problem.Status in some runs.
+var harnessStatus = optimize.NewStatus("HarnessStop", true, nil)
+
 func checkInitialSteps(rc *RunCtx, in *minInst, r *minRun) *Violation {
 	if r.rec == nil || in.method > mCGHZ || in.nilMethod || in.obj.bad != 0 || r.method == nil {
 		return nil
